@@ -49,29 +49,30 @@ var properties = map[string]*Property{
 		OutsideClaim: []string{"count clause for Retries > R (R=2 quick, 3 thorough): VerifC05AnyRetries covers every Retries value for the other clauses but cuts the all-transient script after 4 (5) attempts",
 			"timeouts shorter than 5s; plugins that ignore cancellation forever (the engine abandons such a call by design)"},
 	},
-	"C01": eProp("C01", []eRun{{"VerifC01Seq", 0, 1, nil}, {"VerifC01PlanGroups", 1, 1, nil}, {"VerifC01BlockGroups", 1, 1, nil}, {"VerifC01Conc", 1, 2, []string{"plan completed", "plan failed"}},
-		{"VerifC01Conc4@slow", 1, 1, nil}, {"VerifC01ContSeqs@slow", 1, 2, nil}, {"VerifC01Conc@slow", 1, 2, nil},
+	"C01": eProp("C01", []eRun{{"VerifC01Seq@full:t", 0, 0, nil}, {"VerifC01PlanGroups@full:t", 0, 0, nil}, {"VerifC01BlockGroups@full:t", 0, 0, nil}, {"VerifC01Seq", 0, 1, nil}, {"VerifC01PlanGroups", 1, 1, nil}, {"VerifC01BlockGroups", 1, 1, nil}, {"VerifC01Conc", 1, 2, []string{"plan completed", "plan failed"}},
+		{"VerifC01ContBlocks@slow", 1, 1, nil}, {"VerifC01PlanCont:t", 1, 1, nil}, {"VerifC01Conc4@slow", 1, 1, nil}, {"VerifC01Conc4@slow@full:t", 1, 1, nil}, {"VerifC01ContSeqs@slow", 1, 2, nil}, {"VerifC01Conc@slow", 1, 2, nil},
 		{"VerifC01Seq@slow:t", 1, 1, nil}, {"VerifC01PlanGroups@slow:t", 1, 1, nil}, {"VerifC01BlockGroups@slow:t", 1, 1, nil}},
 		[]string{"shapes beyond: <=2 blocks x <=2 sequences x <=2 actions without check groups; any subset of the five plan-level (resp. block-level) groups on a 1x1x1 plan; 2..3 (4) parallel sequences",
 			"continuous-check actions are exempt from the 'deferred checks come last' clause: block-level continuous checks are drained after the block's deferred checks by design"}),
-	"C02": eProp("C02", []eRun{{"VerifC02Conc", 1, 2, []string{"two sequences in flight"}}, {"VerifC02Seq", 0, 1, nil}, {"VerifC02Conc@slow", 1, 2, []string{"two sequences in flight"}}},
+	"C02": eProp("C02", []eRun{{"VerifC02Seq@full:t", 0, 0, nil}, {"VerifC02Conc", 1, 2, []string{"two sequences in flight"}}, {"VerifC02Seq", 0, 1, nil}, {"VerifC02Conc@slow", 1, 2, []string{"two sequences in flight"}},
+		{"VerifC02ContBlocks@slow", 1, 1, nil}, {"VerifC02ContBlocks@slow@full:t", 1, 1, nil}, {"VerifC02ContSeqs@slow:t", 1, 1, nil}},
 		[]string{"more than two plans on one executor (VerifMulti runs two)", "more than 3 sequences per block with symbolic Concurrency (4 with Concurrency 2 in C01/C04's Conc4 family)"}),
-	"C03": eProp("C03", []eRun{{"VerifC03Conc", 1, 2, []string{"block failed by tolerance", "failures tolerated", "stopped at the exceeding failure"}}, {"VerifC03Seq", 0, 1, []string{"block failed by tolerance", "failures tolerated"}}, {"VerifC03Conc@slow", 1, 2, []string{"block failed by tolerance", "failures tolerated"}},
+	"C03": eProp("C03", []eRun{{"VerifC03Seq@full:t", 0, 0, nil}, {"VerifC03Conc", 1, 2, []string{"block failed by tolerance", "failures tolerated", "stopped at the exceeding failure"}}, {"VerifC03Seq", 0, 1, []string{"block failed by tolerance", "failures tolerated"}}, {"VerifC03Conc@slow", 1, 2, []string{"block failed by tolerance", "failures tolerated"}},
 		{"VerifC03CrashSeq", 0, 0, []string{"crash while the plan is durably Running", "block failed by tolerance", "failures tolerated"}}},
 		[]string{"the literal 'never started once exceeded' is asserted through its schedule-robust consequences (failed <= tol+Concurrency; exact stop with Concurrency 1): between a sequence's last plugin exit and the engine's failure count another admitted sequence may legitimately start"}),
-	"C04": eProp("C04", []eRun{{"VerifC04Seq", 0, 1, nil}, {"VerifC04PlanGroups", 1, 1, nil}, {"VerifC04BlockGroups", 1, 1, nil}, {"VerifC04Conc", 1, 2, nil},
-		{"VerifC04Conc4@slow", 1, 1, nil}, {"VerifC04ContSeqs@slow", 1, 2, nil}, {"VerifC04Conc@slow", 1, 2, nil},
+	"C04": eProp("C04", []eRun{{"VerifC04Seq@full:t", 0, 0, nil}, {"VerifC04PlanGroups@full:t", 0, 0, nil}, {"VerifC04BlockGroups@full:t", 0, 0, nil}, {"VerifC04Seq", 0, 1, nil}, {"VerifC04PlanGroups", 1, 1, nil}, {"VerifC04BlockGroups", 1, 1, nil}, {"VerifC04Conc", 1, 2, nil},
+		{"VerifC04ContBlocks@slow", 1, 1, nil}, {"VerifC04PlanCont:t", 1, 1, nil}, {"VerifC04Conc4@slow", 1, 1, nil}, {"VerifC04Conc4@slow@full:t", 1, 1, nil}, {"VerifC04ContSeqs@slow@full:t", 1, 1, nil}, {"VerifC04ContSeqs@slow", 1, 2, nil}, {"VerifC04Conc@slow", 1, 2, nil},
 		{"VerifC04Seq@slow:t", 1, 1, nil}, {"VerifC04PlanGroups@slow:t", 1, 1, nil}, {"VerifC04BlockGroups@slow:t", 1, 1, nil}},
 		[]string{"that Reason survives storage is C13's obligation", "more than two plans running concurrently on one executor (VerifMulti runs two, through execute.Plans.Start/Wait)"}),
-	"C06": eProp("C06", []eRun{{"VerifC06PlanGroups", 1, 1, []string{"plan bypassed", "plan bypass failed, plan ran", "plan pre-check failed", "plan initial cont-check failed"}},
+	"C06": eProp("C06", []eRun{{"VerifC06PlanGroups@full:t", 0, 0, nil}, {"VerifC06BlockGroups@full:t", 0, 0, nil}, {"VerifC06PlanGroups", 1, 1, []string{"plan bypassed", "plan bypass failed, plan ran", "plan pre-check failed", "plan initial cont-check failed"}},
 		{"VerifC06BlockGroups", 1, 1, []string{"block bypassed", "block pre-check failed", "block initial cont-check failed"}}, {"VerifC06BothGroups", 0, 1, nil},
 		{"VerifC06PlanGroups@slow:t", 1, 1, nil}, {"VerifC06BlockGroups@slow:t", 1, 1, nil}},
 		[]string{"more than one action per check group in the quick tier (two in thorough)"}),
-	"C07": eProp("C07", []eRun{{"VerifC07PlanGroups", 1, 1, []string{"plan cont-check failed", "plan deferred checks ran"}}, {"VerifC07BlockGroups", 1, 1, []string{"block cont-check failed", "block deferred checks ran"}},
-		{"VerifC07ContSeqs@slow", 1, 2, []string{"block cont-check failed"}},
+	"C07": eProp("C07", []eRun{{"VerifC07PlanGroups@full:t", 0, 0, nil}, {"VerifC07BlockGroups@full:t", 0, 0, nil}, {"VerifC07PlanGroups", 1, 1, []string{"plan cont-check failed", "plan deferred checks ran"}}, {"VerifC07BlockGroups", 1, 1, []string{"block cont-check failed", "block deferred checks ran"}},
+		{"VerifC07ContSeqs@slow", 1, 2, []string{"block cont-check failed"}}, {"VerifC07PlanCont", 1, 1, []string{"plan cont-check failed", "block deferred checks ran"}}, {"VerifC07BothGroups:t", 1, 1, nil},
 		{"VerifC07PlanGroups@slow:t", 1, 1, nil}, {"VerifC07BlockGroups@slow:t", 1, 1, nil}},
 		[]string{"continuous-check runs beyond the K-th tick of each ticker (K=2)"}),
-	"C08": eProp("C08", []eRun{{"VerifC08Seq", 0, 1, nil}, {"VerifC08PlanGroups", 1, 1, nil}, {"VerifC08BlockGroups", 1, 1, nil}, {"VerifC08Conc", 1, 2, nil}, {"VerifC08Conc@slow", 1, 2, nil}},
+	"C08": eProp("C08", []eRun{{"VerifC08Seq@full:t", 0, 0, nil}, {"VerifC08PlanGroups@full:t", 0, 0, nil}, {"VerifC08BlockGroups@full:t", 0, 0, nil}, {"VerifC08Seq", 0, 1, nil}, {"VerifC08PlanGroups", 1, 1, nil}, {"VerifC08BlockGroups", 1, 1, nil}, {"VerifC08Conc", 1, 2, nil}, {"VerifC08Conc@slow", 1, 2, nil}},
 		[]string{"polling histories are covered through the write log: every write to a block, sequence or sequence action that was durably Completed/Failed keeps that status (given atomic writes); waiter release itself is C12's harness"}),
 	"C09": eProp("C09", []eRun{{"VerifC09SeqSmall", 0, 0, []string{"crash while the plan is durably Running", "action invoked during recovery", "action not invoked during recovery"}},
 		{"VerifC09PlanGroups", 0, 0, []string{"crash while the plan is durably Running"}}, {"VerifC09BlockGroups", 0, 0, []string{"crash while the plan is durably Running"}},
@@ -229,11 +230,14 @@ func eProp(id string, runs []eRun, outside []string) *Property {
 		if needs == nil {
 			needs = []string{"plan completed", "plan failed"}
 		}
-		// "Fn@slow": run under the slow-plugin default scheduler; "Fn@slow:t": the same, thorough tier only
+		// "Fn[@slow][@full][:t]": @slow = slow-plugin default scheduler; @full = the larger shape bounds (thorough tier);
+		// :t = thorough tier only. Runs without @full keep the quick shapes in both tiers (only the delay bound grows).
 		fn, tonly := strings.CutSuffix(r.fn, ":t")
+		fn, full := strings.CutSuffix(fn, "@full")
 		fn, slow := strings.CutSuffix(fn, "@slow")
+		byRun := id != "C09" && id != "C10" // the crash families take their shape bounds from the tier
 		p.Runs = append(p.Runs, Run{Dir: "engine", Pkg: "internal/execute/sm", Fn: fn, P: [2]int{r.pq, r.pt}, Ticks: ticks,
-			SwitchOn: []string{"yield:enter", "yield:exit"}, Needs: needs, Slow: slow, ThoroughOnly: tonly})
+			SwitchOn: []string{"yield:enter", "yield:exit"}, Needs: needs, Slow: slow, ThoroughOnly: tonly || full, Full: full, ShapesByRun: byRun})
 	}
 	return p
 }
